@@ -1,4 +1,4 @@
-(** Model of src/epd2in9_v2/mod.rs — STUB, not yet transcribed. *)
+(** Model of src/epd2in9_v2/mod.rs (type-A command set, WaveshareDisplay + QuickRefresh). *)
 From Coq Require Import List NArith Bool.
 From EPD Require Import Iface Ops Drv.Luts.
 Import ListNotations.
@@ -8,11 +8,150 @@ Open Scope m_scope.
 Module Epd2in9_v2.
 Definition WIDTH : N := 128.
 Definition HEIGHT : N := 296.
+Definition IS_BUSY_LOW := false.
 
-Definition init : M unit := ret tt.
+Definition LUT_PARTIAL_2IN9 := epd2in9_v2_LUT_PARTIAL_2IN9.
+Definition WS_20_30 := epd2in9_v2_WS_20_30.
 
-Definition exec (k : N) (o : op) : option (M rval) := None.
+(** [&TABLE[a..b]] on a constant table of 159 bytes (always in range) *)
+Definition slice (l : list N) (a b : nat) : list N := firstn (b - a) (skipn a l).
+
+Definition wait_until_idle : M unit := wait_idle IS_BUSY_LOW.
+
+Definition set_ram_area (sx sy ex ey : N) : M unit :=
+  assert (sx <? ex) ;;
+  assert (sy <? ey) ;;
+  cmd_with_data 0x44 [u8 (shr sx 3); u8 (shr ex 3)] ;;
+  cmd_with_data 0x45 [u8 sy; u8 (shr sy 8); u8 ey; u8 (shr ey 8)].
+
+Definition set_ram_counter (x y : N) : M unit :=
+  wait_until_idle ;;
+  cmd_with_data 0x4E [u8 x] ;;
+  cmd_with_data 0x4F [u8 y; u8 (shr y 8)].
+
+Definition use_full_frame : M unit :=
+  set_ram_area 0 0 (WIDTH - 1) (HEIGHT - 1) ;;
+  set_ram_counter 0 0.
+
+Definition set_lut_helper (buffer : list N) : M unit :=
+  wait_until_idle ;;
+  cmd_with_data 0x32 buffer ;;
+  wait_until_idle.
+
+Definition init : M unit :=
+  reset 10000 2000 ;;
+  wait_until_idle ;;
+  cmd 0x12 ;;
+  wait_until_idle ;;
+  cmd_with_data 0x01 [0x27; 0x01; 0x00] ;;
+  cmd_with_data 0x11 [0x03] ;;
+  set_ram_area 0 0 (WIDTH - 1) (HEIGHT - 1) ;;
+  cmd_with_data 0x21 [0x00; 0x80] ;;
+  set_ram_counter 0 0 ;;
+  wait_until_idle ;;
+  set_lut_helper (slice WS_20_30 0 153) ;;
+  cmd_with_data 0x3F (slice WS_20_30 153 154) ;;
+  cmd_with_data 0x03 (slice WS_20_30 154 155) ;;
+  cmd_with_data 0x04 (slice WS_20_30 155 158) ;;
+  cmd_with_data 0x2C (slice WS_20_30 158 159).
+
+Definition sleep : M unit :=
+  wait_until_idle ;;
+  cmd_with_data 0x10 [0x01].
+
+Definition wake_up : M unit := init.
+
+Definition update_frame (k len : N) : M unit :=
+  wait_until_idle ;;
+  cmd_with_data_e 0x24 (DArg k 0 0 len).
+
+Definition update_partial_frame (k len x y w h : N) : M unit :=
+  wait_until_idle ;;
+  ex <- add32 x w ;;
+  ey <- add32 y h ;;
+  set_ram_area x y ex ey ;;
+  set_ram_counter x y ;;
+  cmd_with_data_e 0x24 (DArg k 0 0 len).
+
+Definition display_frame : M unit :=
+  wait_until_idle ;;
+  cmd_with_data 0x22 [0xC7] ;;
+  cmd 0x20 ;;
+  wait_until_idle.
+
+Definition update_and_display_frame (k len : N) : M unit :=
+  update_frame k len ;;
+  display_frame.
+
+Definition clear_frame : M unit :=
+  wait_until_idle ;;
+  s <- get ;;
+  let color := if bg s =? cWhite then 0xff else 0x00 in
+  cmd 0x24 ;;
+  data_x_times color (WIDTH / 8 * HEIGHT) ;;
+  cmd 0x26 ;;
+  data_x_times color (WIDTH / 8 * HEIGHT).
+
+Definition set_lut (r : option N) : M unit :=
+  match r with Some v => modify (set_refresh v) | None => ret tt end.
+
+(** QuickRefresh *)
+Definition update_old_frame (k len : N) : M unit :=
+  wait_until_idle ;;
+  cmd_with_data_e 0x24 (DArg k 0 0 len) ;;
+  cmd_with_data_e 0x26 (DArg k 0 0 len).
+
+Definition update_new_frame (k len : N) : M unit :=
+  wait_until_idle ;;
+  reset 10000 2000 ;;
+  set_lut_helper LUT_PARTIAL_2IN9 ;;
+  cmd_with_data 0x37 [0x00; 0x00; 0x00; 0x00; 0x00; 0x40; 0x00; 0x00; 0x00; 0x00] ;;
+  cmd_with_data 0x3C [0x80] ;;
+  cmd_with_data 0x22 [0xC0] ;;
+  cmd 0x20 ;;
+  wait_until_idle ;;
+  use_full_frame ;;
+  cmd_with_data_e 0x24 (DArg k 0 0 len).
+
+Definition display_new_frame : M unit :=
+  wait_until_idle ;;
+  cmd_with_data 0x22 [0x0F] ;;
+  cmd 0x20 ;;
+  wait_until_idle.
+
+Definition update_and_display_new_frame (k len : N) : M unit :=
+  update_new_frame k len ;;
+  display_new_frame.
+
+Definition update_partial_old_frame (k len x y w h : N) : M unit := panic.
+Definition update_partial_new_frame (k len x y w h : N) : M unit := panic.
+Definition clear_partial_frame (x y w h : N) : M unit := panic.
+
+Definition exec (k : N) (o : op) : option (M rval) :=
+  match o with
+  | OSleep => unit_ sleep
+  | OWakeUp => unit_ wake_up
+  | OSetBg c => unit_ (modify (set_bg c))
+  | OGetBg => Some (s <- get ;; ret (RColor (bg s)))
+  | OWidth => Some (ret (RNum WIDTH))
+  | OHeight => Some (ret (RNum HEIGHT))
+  | OUpdateFrame len => unit_ (update_frame k len)
+  | OUpdatePartial len x y w h => unit_ (update_partial_frame k len x y w h)
+  | ODisplay => unit_ display_frame
+  | OUpdateAndDisplay len => unit_ (update_and_display_frame k len)
+  | OClear => unit_ clear_frame
+  | OSetLut r => unit_ (set_lut r)
+  | OWaitIdle => unit_ wait_until_idle
+  | OUpdateOld len => unit_ (update_old_frame k len)
+  | OUpdateNew len => unit_ (update_new_frame k len)
+  | ODisplayNew => unit_ display_new_frame
+  | OUpdateAndDisplayNew len => unit_ (update_and_display_new_frame k len)
+  | OUpdatePartialOld len x y w h => unit_ (update_partial_old_frame k len x y w h)
+  | OUpdatePartialNew len x y w h => unit_ (update_partial_new_frame k len x y w h)
+  | OClearPartial x y w h => unit_ (clear_partial_frame x y w h)
+  | _ => None
+  end.
 
 Definition drv (ft : feat) : driver :=
-  mkDriver WIDTH HEIGHT true d0 init exec.
+  mkDriver WIDTH HEIGHT true (mkD cWhite 0 false false 0 None) init exec.
 End Epd2in9_v2.
